@@ -19,6 +19,9 @@ def npath(p):
     if p.startswith("<"):
         return p
     segs = p.split("::")
+    # the library's free functions that are part of its vocabulary, wherever they are defined (re-exported from a module)
+    if segs[-1] in ("take_cf_content",) and segs[0] not in EXTERNAL_ROOTS and all(s and (s[0].islower() or s[0] == "_") for s in segs):
+        return segs[-1]
     if segs and segs[0] not in EXTERNAL_ROOTS:
         i = 0
         while i < len(segs) - 1 and segs[i] and (segs[i][0].islower() or segs[i][0] == "_") and segs[i].replace("_", "").isalnum():
